@@ -148,6 +148,7 @@ static int64_t pick_raw_target(const stream_t *s,rng_t *r,int *cls){
 }
 
 /* Judge one seek call. api: 0 raw,1 pcm,2 pcm_page,3 time,4 time_page */
+static int force_on; static int64_t force_p;     /* do_seek repeats a given raw/pcm/page request (the retry after a call during which the source balked) */
 static void do_seek(OggVorbis_File *vf,const stream_t *s,rng_t *r,int api,int prevcls,int mode08){
   int cls=0; int64_t L=s->ref.total; int64_t p=0; double t=0; int ret; char ctx[200];
   int64_t tell0=ov_pcm_tell(vf);
@@ -171,6 +172,7 @@ static void do_seek(OggVorbis_File *vf,const stream_t *s,rng_t *r,int api,int pr
       explink=l; expect=s->ref.l[l].start+(int64_t)floor((t-s->tstart[l])*s->ref.l[l].rate);
     }
   }
+  if(force_on && api<=2){ p=force_p; cls=9; oor=0; }
   if(api<=2) snprintf(ctx,sizeof ctx,"%s(%lld) cls%d prev%d tell0=%lld",apiname[api],(long long)p,cls,prevcls,(long long)tell0);
   else snprintf(ctx,sizeof ctx,"%s(%.9f) cls%d prev%d tell0=%lld",apiname[api],t,cls,prevcls,(long long)tell0);
   switch(api){
@@ -311,6 +313,22 @@ static void run_case(const drvargs_t *a,long id){
         if(mode08 && api==0 && rng_chance(&r,0.6)) api=1;
         do_seek(&vf,&s,&r,api,prevcls,mode08);
         prevcls=2;
+      }else if(c<(mode08?76:61)){
+        /* the source balks once (round 8): one seek callback fails during an in-range seek call, which is judged for its return domain only; the callbacks then work
+           again and the SAME request is repeated (or another flavour asks for the same target) - that call and everything after it is judged like any other call of
+           the history: the stream is intact, and a refused call is just one more "prior call" */
+        int api=(int)rng_below(&r,3), cls; int64_t p= api==0? pick_raw_target(&s,&r,&cls) : pick_pcm_target(&s,&r,&cls);
+        if(p>=0 && p<=(api==0?(int64_t)s.n:L)){
+          memsrc_fault(&ms,F_SEEK_FAIL,ms.n_seek+(long)rng_below(&r,3),0);
+          int rc= api==0? ov_raw_seek(&vf,p) : api==1? ov_pcm_seek(&vf,p) : ov_pcm_seek_page(&vf,p);
+          long fired=ms.f_fired; memsrc_clear_fault(&ms);
+          res_eval(1); res_count("seek_calls_during_which_the_source_balked",fired?1:0);
+          if(rc>0 || rc<-140) res_viol("C08","return-domain","%s(%lld) returned %d when the seek callback failed once",apiname[api],(long long)p,rc);
+          if(fired && rc==0 && api) res_count("seek_reported_success_although_the_source_balked",1);
+          force_on=1; force_p=p; do_seek(&vf,&s,&r,rng_chance(&r,0.7)?api:(api==0?0:1+(int)rng_below(&r,2)),4,mode08); force_on=0;
+          if(fired) res_count("retries_after_a_balked_seek_judged",1);
+          prevcls=2;
+        }
       }else if(c<85){
         int nr=(int)rng_range(&r,1,6);
         verify_reads(&vf,&s,&r,nr,"sequential read",rng_chance(&r,0.25));
